@@ -124,7 +124,8 @@ def c20_2(c: Ctx) -> None:
     facts = Facts(lambda a: a == 'semaphore_lax', cg=c.cg, unit=u)
     for en in arms:
         arm = en.ast
-        inside = {id(x) for b in arm.body for x in ast.walk(b)}
+        # an arm that translates the deadline's TimeoutError into another TimeoutError caught further out is part of the same handling: follow it through
+        inside = {id(x) for en2 in arms for b in en2.ast.body for x in ast.walk(b)} | {id(en2.ast) for en2 in arms}
         for lax, want in ((False, 'raise'), (True, 'return False')):
             def wrong(n, d, want=want):
                 if n.ast is not None and id(n.ast) in inside and n.kind != 'return':
